@@ -10,7 +10,7 @@ THEOREMS = ["C01_survives_unless_pruned", "C01_durable_exactly_once_outside_know
             "C01_lockstep_wlost_in_dirs", "C01_lockstep_wlost_empty", "C01_lockstep_wlost_empty_refuted",
             "C01_lockstep_needs_wal_order_refuted", "C01_exactly_once_after_first_crash", "C01_manual_flush_refuted",
             "C01_id_drift_refuted", "C01_id_drift_short_refuted", "C01_durable_exactly_once_refuted",
-            "C01_count_type_blind_refuted", "C01_count_double_refuted", "C01_count_after_restart",
+            "C01_count_is_scan", "C01_count_exact_when_ids_distinct", "C01_count_two_types_exact", "C01_count_double_refuted", "C01_count_after_restart",
             "C01_count_ge_select", "C01_count_covers_durable",
             "C01_quiescent_restart_keeps_lockstep", "C01_quiescent_restart_preserves_inv", "C01_lockstep_q_no_prune",
             "C01_quiet_state_lockstep", "C01_exactly_once_across_quiescent_restarts",
@@ -27,7 +27,7 @@ TRUSTED = ["Coq 8.16.1 kernel + coqc", "extraction (ExtrOcamlBasic) + ocaml/p_sh
            "hooks in /repo under cfg(sneldb_verif): labelled step points, abort injection"]
 CLAIMED = True
 MANIFEST = {
- "level_text": "Theorems over the trace-validated shard model, for ALL label lists (stores, manual flushes, WAL writes/rotations, flush-worker stages, crashes and restarts in any order, no bound): every durable event (WAL entry written) that is not in the model's ghost list of pruned WAL entries is returned exactly once after crash+restart and after a clean restart; nothing is read that was not stored; no selection ever contains a key twice. For one lifetime without manual FLUSH (WAL thread in program order) no durable event is lost, so every durable event is read exactly once after the first crash. A kill of the quiescent process (no flush job, WAL queue drained) followed by a restart preserves the lockstep invariant (same next segment id, same WAL file id, writer's entry counter = fill level of the recovered memtable), so every durable event is read exactly once after any number of quiescent kill/restart cycles interleaved with stores and background flushes, with nothing pruned or unlinked. The unconditional property is refuted by machine-checked witnesses of the known class OpenWalFilePruned (manual FLUSH; segment/WAL id drift after a crash during rotation), COUNT after recovery by witnesses of CountAfterRecovery together with the exact value and lower bounds that do hold. The model is tied to the engine by trace validation: generated histories with abort() injected at every hook step point, every observation compared.",
+ "level_text": "Theorems over the trace-validated shard model, for ALL label lists (stores, manual flushes, WAL writes/rotations, flush-worker stages, crashes and restarts in any order, no bound): every durable event (WAL entry written) that is not in the model's ghost list of pruned WAL entries is returned exactly once after crash+restart and after a clean restart; nothing is read that was not stored; no selection ever contains a key twice. For one lifetime without manual FLUSH (WAL thread in program order) no durable event is lost, so every durable event is read exactly once after the first crash. A kill of the quiescent process (no flush job, WAL queue drained) followed by a restart preserves the lockstep invariant (same next segment id, same WAL file id, writer's entry counter = fill level of the recovered memtable), so every durable event is read exactly once after any number of quiescent kill/restart cycles interleaved with stores and background flushes, with nothing pruned or unlinked. The unconditional property is refuted by machine-checked witnesses of the known class OpenWalFilePruned (manual FLUSH; segment/WAL id drift after a crash during rotation), COUNT is proved to be the length of the scan (after fix dc170f4 the in-memory rows are filtered by type like the segment rows; the model reads this from the regenerated flag agg_mem_filters_type) and hence equal to the selection whenever no event id occurs twice in the scan; the remaining known class CountAfterRecovery (rows in a leftover directory and in the WAL counted twice) is refuted by a witness, next to the exact value after a restart and the lower bounds that hold. The model is tied to the engine by trace validation: generated histories with abort() injected at every hook step point, every observation compared.",
  "design_ref": "DESIGN.md \u00a76 C01",
  "level_note": "Trusted: Coq kernel; hand-written model Model/Shard.v (differentially validated, not proved against the Rust); ExtrOcamlBasic extraction + ocaml/p_shard.ml; engine harness and trace-to-label mapping; hooks under cfg(sneldb_verif). Process crash only (no power loss / fsync ordering); one shard; flush_each_write. The lockstep theorems assume the WAL thread's program order (no write while a rotation is due), which label lists of the engine satisfy; without it the model loses an event (witness proved)."
 }
@@ -102,7 +102,9 @@ def classify(c, impl, model=None):
     when the model (whose theorems name the class) predicts exactly this read and says the WAL writer's
     open file had been pruned (wunlinked)."""
     why = oracle(c, impl) or ""
-    if " cnt" in why:
+    # known only as the double count the model itself predicts (rows in a leftover directory and in the WAL);
+    # a COUNT the model does not predict - e.g. in-memory rows of other types counted again - is a violation
+    if " cnt" in why and model and not shardprop.diffs(c, impl, model):
         return "CountAfterRecovery"
     if "LOST" in why and model and not shardprop.diffs(c, impl, model) and re.search(r"incomplete=[0-9]", model):
         return "CrashLeftoverDirectoryBreaksReads"
